@@ -115,7 +115,7 @@ func RunProperty(p *Property, tier string, self string) int {
 					return
 				}
 				var lastP, lastS, hangAt int64 = -1, -1, -1
-				var done *WorkerStats
+				var done, partial *WorkerStats
 				rd := bufio.NewReaderSize(out, 1<<20)
 				for {
 					line, err := rd.ReadBytes('\n')
@@ -127,6 +127,8 @@ func RunProperty(p *Property, tier string, self string) int {
 								lastP = m.I
 							case "s":
 								lastS = m.I
+							case "partial":
+								partial = m.Done
 							case "hang":
 								hangAt = m.I
 							case "v":
@@ -155,6 +157,12 @@ func RunProperty(p *Property, tier string, self string) int {
 					return
 				}
 				// the worker died without finishing
+				if partial != nil && hangAt >= 0 {
+					partial.Truncated = false
+					mu.Lock()
+					mergeStats(&total, partial, false)
+					mu.Unlock()
+				}
 				switch {
 				case hangAt >= 0:
 					c := caseAt(p, tier, hangAt)
